@@ -7,6 +7,14 @@ use std::{
     time::Instant,
 };
 
+/// Progress note for the supervising process (see `main.rs`): what the check is exploring right now. If the checking
+/// process dies (memory exhaustion, abort inside foreign code), the supervisor reports this with the violation.
+pub fn progress(what: &str) {
+    if let Ok(path) = std::env::var("VERIF_PROGRESS_FILE") {
+        let _ = std::fs::write(path, what);
+    }
+}
+
 pub fn verif_root() -> String {
     std::env::var("VERIF_ROOT").unwrap_or_else(|_| "/verif".to_string())
 }
